@@ -597,3 +597,215 @@ Proof.
     + destruct (mem_name name loaded); [discriminate|auto].
     + intros [_ ->]. reflexivity.
 Qed.
+
+(* ---------------------------------------------------------------- split_pkg on written names *)
+
+Lemma rpart_nodot c : has_dot c = false -> rpart c = None.
+Proof.
+  induction c as [|x c IH]; simpl; [reflexivity|]. intros H. apply orb_false_iff in H as [H1 H2].
+  rewrite (IH H2), H1. reflexivity.
+Qed.
+
+Lemma rpart_last pre c : has_dot c = false -> rpart (pre ++ dot :: c) = Some (pre, c).
+Proof.
+  intros Hc. induction pre as [|x pre IH]; simpl.
+  - rewrite (rpart_nodot c Hc). reflexivity.
+  - rewrite IH. reflexivity.
+Qed.
+
+Lemma dotted_snoc cs c : cs <> [] -> dotted (cs ++ [c]) = dotted cs ++ dot :: c.
+Proof.
+  induction cs as [|x cs IH]; intros Hne; [congruence|].
+  destruct cs as [|y cs].
+  - reflexivity.
+  - change ((x :: y :: cs) ++ [c]) with (x :: (y :: cs) ++ [c]).
+    change (dotted (x :: (y :: cs) ++ [c])) with (x ++ dot :: dotted ((y :: cs) ++ [c])).
+    rewrite IH by discriminate. change (dotted (x :: y :: cs)) with (x ++ dot :: dotted (y :: cs)).
+    rewrite <- app_assoc. reflexivity.
+Qed.
+
+Lemma repeat_snoc {A} (x : A) n : repeat x (S n) = repeat x n ++ [x].
+Proof. induction n as [|n IH]; [reflexivity|]. simpl in *. rewrite <- IH. reflexivity. Qed.
+
+Lemma forallb_dots_false s c : comp_ok c = true -> forallb is_dot (s ++ c) = false.
+Proof.
+  unfold comp_ok. intros H. apply andb_true_iff in H as [H1 H2].
+  rewrite forallb_app. destruct c as [|x c]; [discriminate|]. simpl in *.
+  apply negb_true_iff in H2. apply orb_false_iff in H2 as [-> _]. simpl. apply andb_false_r.
+Qed.
+
+Lemma ends_with_dot_comp s c : comp_ok c = true -> ends_with_dot (s ++ c) = false.
+Proof.
+  unfold comp_ok. intros H. apply andb_true_iff in H as [H1 H2]. apply negb_true_iff in H2.
+  destruct c as [|x c] using rev_ind; [discriminate|]. clear IHc.
+  unfold ends_with_dot. rewrite app_assoc, rev_app_distr. simpl.
+  unfold has_dot in H2. rewrite existsb_app in H2. apply orb_false_iff in H2 as [_ H2].
+  simpl in H2. apply orb_false_iff in H2 as [H2 _]. exact H2.
+Qed.
+
+Lemma dotted_last_comp cs : cs <> [] -> forallb comp_ok cs = true ->
+  exists s c, dotted cs = s ++ c /\ comp_ok c = true.
+Proof.
+  induction cs as [|x cs IH]; intros Hne Hok; [congruence|].
+  simpl in Hok. apply andb_true_iff in Hok as [Hx Hok].
+  destruct cs as [|y cs].
+  - exists [], x. auto.
+  - destruct (IH ltac:(discriminate) Hok) as (s & c & Hs & Hc).
+    exists (x ++ dot :: s), c. split; [|exact Hc].
+    change (dotted (x :: y :: cs)) with (x ++ dot :: dotted (y :: cs)). rewrite Hs.
+    rewrite <- app_assoc. reflexivity.
+Qed.
+
+(* split_pkg cuts a written name '.'*level + 'a.b.c' into the written name of its package part
+   ('.'*level + 'a.b') and the last component, for every level and every number of components *)
+Theorem split_render level cs c :
+  forallb comp_ok cs = true -> comp_ok c = true ->
+  split_pkg (render level (cs ++ [c])) = (render level cs, c).
+Proof.
+  intros Hcs Hc. unfold split_pkg, render.
+  assert (Hnd : has_dot c = false).
+  { unfold comp_ok in Hc. apply andb_true_iff in Hc as [_ H]. apply negb_true_iff in H. exact H. }
+  destruct cs as [|x cs].
+  - (* '.'*level + c *)
+    change (dotted ([] ++ [c])) with c. change (dotted []) with (@nil ascii). rewrite app_nil_r.
+    rewrite (forallb_dots_false _ _ Hc).
+    destruct level as [|k].
+    + simpl. rewrite (rpart_nodot c Hnd). reflexivity.
+    + rewrite repeat_snoc. rewrite <- app_assoc. change ([dot] ++ c) with (dot :: c).
+      rewrite (rpart_last _ c Hnd).
+      destruct k as [|k].
+      * reflexivity.
+      * change (is_nil (repeat dot (S k))) with false. cbv iota.
+        rewrite (repeat_snoc dot k) at 1. rewrite ends_with_dot_snoc.
+        rewrite <- repeat_snoc. reflexivity.
+  - rewrite dotted_snoc by discriminate. rewrite app_assoc.
+    destruct (dotted_last_comp (x :: cs) ltac:(discriminate) Hcs) as (s & c0 & Hs & Hc0).
+    assert (Hnotdots : forallb is_dot ((repeat dot level ++ dotted (x :: cs)) ++ dot :: c) = false).
+    { change (dot :: c) with ([dot] ++ c). rewrite app_assoc. apply forallb_dots_false, Hc. }
+    rewrite Hnotdots. rewrite (rpart_last _ c Hnd).
+    assert (Hnn : is_nil (repeat dot level ++ dotted (x :: cs)) = false).
+    { rewrite Hs. unfold comp_ok in Hc0. apply andb_true_iff in Hc0 as [H _].
+      destruct c0; [discriminate|]. destruct (repeat dot level); destruct s; reflexivity. }
+    rewrite Hnn. rewrite Hs, app_assoc. rewrite (ends_with_dot_comp _ _ Hc0). reflexivity.
+Qed.
+
+(* and join_pkg puts it back, except for a bare name without package part *)
+Theorem join_render level cs c :
+  forallb comp_ok cs = true -> (level <> 0 \/ cs <> []) ->
+  join_pkg (render level cs) c = render level (cs ++ [c]).
+Proof.
+  intros Hcs Hne. unfold join_pkg, render. destruct cs as [|x cs].
+  - change (dotted []) with (@nil ascii). rewrite app_nil_r. change (dotted ([] ++ [c])) with c.
+    destruct level as [|k]; [destruct Hne; congruence|].
+    rewrite (repeat_snoc dot k) at 1. rewrite ends_with_dot_snoc. reflexivity.
+  - destruct (dotted_last_comp (x :: cs) ltac:(discriminate) Hcs) as (s & c0 & Hs & Hc0).
+    rewrite dotted_snoc by discriminate.
+    rewrite Hs at 1. rewrite app_assoc. rewrite (ends_with_dot_comp _ _ Hc0).
+    rewrite <- app_assoc. reflexivity.
+Qed.
+
+(* ---------------------------------------------------------------- first match = longest match *)
+
+Lemma ends_with_iff name s : ends_with name s = true <-> exists m, name = m ++ s.
+Proof.
+  unfold ends_with. split.
+  - intros H. apply andb_true_iff in H as [L E]. apply str_eqb_eq in E.
+    exists (firstn (length name - length s) name).
+    transitivity (firstn (length name - length s) name ++ skipn (length name - length s) name).
+    + symmetry; apply firstn_skipn.
+    + f_equal. exact E.
+  - intros (m & ->). rewrite app_length. apply andb_true_iff. split.
+    + apply Nat.leb_le. lia.
+    + replace (length m + length s - length s) with (length m) by lia.
+      rewrite skipn_app, skipn_all, Nat.sub_diag. simpl. apply str_eqb_refl.
+Qed.
+
+Lemma suffix_of_longer name s1 s2 :
+  ends_with name s1 = true -> ends_with name s2 = true -> length s1 <= length s2 ->
+  ends_with s2 s1 = true.
+Proof.
+  intros H1 H2 L. apply ends_with_iff in H1 as (m1 & E1). apply ends_with_iff in H2 as (m2 & E2).
+  rewrite E1 in E2. apply app_eq_app in E2 as (l & [[_ E]|[_ E]]).
+  - apply ends_with_iff. exists l. exact E.
+  - assert (l = []) as ->.
+    { apply (f_equal (@length _)) in E. rewrite app_length in E. destruct l; [reflexivity|simpl in E; lia]. }
+    simpl in E. subst. apply ends_with_iff. exists []. reflexivity.
+Qed.
+
+Definition step (name : str) (best : option str) (s : str) : option str :=
+  if ends_with name s && (match best with None => true | Some b => length b <? length s end)
+  then Some s else best.
+
+Lemma fold_keep name l : forall b,
+  (forall s, In s l -> ends_with name s = true -> length s <= length b) ->
+  fold_left (step name) l (Some b) = Some b.
+Proof.
+  induction l as [|a l IH]; intros b H; simpl; [reflexivity|].
+  assert (Ha : step name (Some b) a = Some b).
+  { unfold step. destruct (ends_with name a) eqn:E; simpl; [|reflexivity].
+    specialize (H a (or_introl eq_refl) E). destruct (length b <? length a) eqn:L; [|reflexivity].
+    apply Nat.ltb_lt in L. lia. }
+  rewrite Ha. apply IH. intros s Hs. apply H. right; exact Hs.
+Qed.
+
+Lemma best_is_first name l : sfx_ordered l = true ->
+  fold_left (step name) l None = find (ends_with name) l.
+Proof.
+  induction l as [|a l IH]; intros H; simpl; [reflexivity|].
+  simpl in H. apply andb_true_iff in H as [Ha Hl].
+  unfold step at 2. rewrite andb_true_r. destruct (ends_with name a) eqn:E.
+  - apply fold_keep. intros s Hs Es.
+    rewrite forallb_forall in Ha. specialize (Ha s Hs). apply negb_true_iff in Ha.
+    destruct (Nat.le_gt_cases (length s) (length a)) as [L|L]; [exact L|].
+    rewrite (suffix_of_longer name a s E Es ltac:(lia)) in Ha.
+    apply Nat.ltb_lt in L. rewrite L in Ha. discriminate.
+  - apply IH, Hl.
+Qed.
+
+Lemma first_some_strip name l :
+  first_some (strip_suffix name) l =
+  option_map (fun s => firstn (length name - length s) name) (find (ends_with name) l).
+Proof.
+  induction l as [|a l IH]; simpl; [reflexivity|]. unfold strip_suffix at 1.
+  destruct (ends_with name a); [reflexivity|exact IH].
+Qed.
+
+Lemma first_is_longest sfx name : sfx_ordered sfx = true ->
+  first_some (strip_suffix name) sfx = modname sfx name.
+Proof.
+  intros H. rewrite first_some_strip. unfold modname, best_suffix.
+  change (fold_left _ sfx None) with (fold_left (step name) sfx None).
+  rewrite (best_is_first name sfx H). reflexivity.
+Qed.
+
+Lemma dir_ok2_dir_ok fs ls sfx d : sfx_ordered sfx = true ->
+  dir_ok2 fs ls sfx d = true -> dir_ok fs ls sfx sfx d = true.
+Proof.
+  unfold dir_ok2, dir_ok. intros Ho H. rewrite forallb_forall in *. intros x Hx.
+  specialize (H x Hx). unfold entry_ok, entry_ok2 in *.
+  rewrite (first_is_longest sfx x Ho).
+  assert (R : opt_str_eqb (modname sfx x) (modname sfx x) = true).
+  { destruct (modname sfx x); simpl; [apply str_eqb_refl|reflexivity]. }
+  rewrite R. exact H.
+Qed.
+
+Theorem children_lower2 fs ls sfx loaded dirs pkg m :
+  sfx_ordered sfx = true -> dom fs sfx dirs pkg = true ->
+  (forall d, In d (listed fs sfx dirs pkg) -> dir_ok2 fs ls sfx d = true) ->
+  In m (children_importlib fs ls sfx dirs pkg) -> In m (list_packages fs ls sfx loaded dirs pkg).
+Proof.
+  intros Ho Hd Hok. apply children_lower; [exact Hd|].
+  intros d Hin. apply dir_ok2_dir_ok; auto.
+Qed.
+
+Theorem children_upper2 fs ls sfx loaded dirs pkg m :
+  sfx_ordered sfx = true -> In py sfx -> dom fs sfx dirs pkg = true ->
+  (forall d n, In d (listed fs sfx dirs pkg) -> In n (ls d) -> exists_ fs (d ++ [n]) = true) ->
+  (forall d, In d (listed fs sfx dirs pkg) -> dir_ok2 fs ls sfx d = true) ->
+  In m (list_packages fs ls sfx loaded dirs pkg) ->
+  (exists L tail, In L loaded /\ L = pkg ++ m :: tail) \/
+  (exists h, importlib_walk fs sfx dirs (pkg ++ [m]) = RFound h).
+Proof.
+  intros Ho Hpy Hd Hls Hok. apply children_upper; auto.
+  intros d Hin. apply dir_ok2_dir_ok; auto.
+Qed.
